@@ -297,6 +297,56 @@ def gen_mul(rng, cv, sysname, count, part=None):
         for al in (".p", ".q"):
             out.append("eds %s%s %s %x %s %x" % (v, al, ptok(rng, cv, rng.choice(pool), rp), 1 + rng.below(cv.r - 1),
                                                 ptok(rng, cv, rng.choice(pool), rp), 1 + rng.below(cv.r - 1)))
+    # comb-structured scalars for the double-table comb (ed_mul_fix_combd; fix_ / gen use it in the p255-basic build) and the single
+    # comb: RLC_DEPTH = 4 rows, dd = ceil(bits(r)/4) columns, e = ceil(dd/2): single bits at the row / column / half boundaries,
+    # full and empty halves (second-table columns only, first-table columns only), one full column, one full row, all ones
+    depth = 4
+    dd = (cv.r.bit_length() + depth - 1) // depth
+    e = (dd + 1) // 2
+    bit = lambda i, j: 1 << (i + j * dd)
+    comb = []
+    for i in (0, 1, e - 1, e, e + 1, dd - 1):
+        for j in (0, 1, depth - 1):
+            if i + j * dd < cv.r.bit_length() - 1:
+                comb.append(bit(i, j))
+    comb.append(sum(bit(i, j) for i in range(e) for j in range(depth - 1)))                 # only the first table is used
+    comb.append(sum(bit(i, j) for i in range(e, dd) for j in range(depth - 1)))            # only the second table is used
+    comb.append(sum(bit(e - 1, j) for j in range(depth - 1)) + sum(bit(dd - 1, j) for j in range(depth - 1)))
+    comb.append(sum(bit(i, 0) for i in range(dd)))                                          # one full row
+    comb.append(sum(bit(i, depth - 2) for i in range(dd)))
+    comb.append((1 << (cv.r.bit_length() - 1)) - 1)                                         # all ones below the top bit
+    comb.append(1 << (cv.r.bit_length() - 1))                                               # the top bit of the order alone
+    comb.append(cv.r - 1)
+    comb.append((1 << (depth * dd)) - 1)                                                    # all ones over the comb (reduced mod r)
+    comb.append(-comb[rng.below(len(comb))])
+    for ci, kk in enumerate(comb):
+        for v in ("fix_combd", "fix_combs", "fix_", "gen"):
+            if part is not None and v != "fix_combd" and (ci + len(v)) % part[1] != part[0]:
+                continue
+            out.append("edm %s %d %s %s" % (v, rng.below(2), ptok(rng, cv, rng.choice(pool + [cv.g]), ""), hx(kk)))
+    # ed_mul_sim_lot, structured: no point, one point, scalars 0 / +-1 / negative / longer than the order (not reduced) / of very
+    # different lengths (the shared NAF length is the longest + 1), the neutral element and repeated / opposite points among the inputs
+    big = lambda: rng.bits(rng.choice([257, 300, 384])) | 1 << 256
+    P0, P1, P2 = rng.choice(pool), rng.choice(pool), rng.choice(pool)
+    lots = [
+        [],
+        [(P0, 0)], [(P0, 1)], [(P0, -1)], [(cv.O, 5)], [(P0, cv.r)], [(P0, big())], [(P0, -big())],
+        [(P0, 1), (P1, rng.bits(256) % cv.r)], [(P0, rng.bits(256) % cv.r), (P1, 0)], [(P0, 0), (P1, 0)],
+        [(P0, 3), (P0, -3)], [(P0, rng.bits(200)), (cv.neg(P0), rng.bits(252))], [(P0, cv.r - 1), (P1, -(cv.r - 1))],
+        [(P0, -rng.bits(250)), (P1, -rng.bits(64)), (P2, -1)], [(cv.O, rng.bits(252)), (P1, 2), (cv.O, 0)],
+        [(P0, big()), (P1, 1), (P2, -(rng.bits(128)))], [(P0, (1 << 252) - 1), (P1, 1 << 252), (P2, int("01" * 126, 2))],
+        [(rng.choice(pool), scalar(rng, cv.r, c_)) for c_ in range(8)], [(rng.choice(pool), scalar(rng, cv.r, 6 + c_)) for c_ in range(8)],
+        [(rng.choice(pool), rng.choice([1, -1]) * rng.bits(253)) for _ in range(12)],
+    ]
+    for li, lot in enumerate(lots):
+        if not mine(li):
+            continue
+        toks = []
+        for (P, kk) in lot:
+            toks += [ptok(rng, cv, P, rp), hx(kk)]
+        out.append(("edl %d %s" % (len(lot), " ".join(toks))).strip())
+        if len(lot) > 0:
+            out.append("edla %d %d %s" % (rng.below(len(lot)), len(lot), " ".join(toks)))
     for _ in range(count):
         k = rng.below(100)
         if k < 55:
